@@ -15,7 +15,7 @@ def c10_case(draw):
     if draw(st.integers(0, 11)) == 0:
         return {'kind': 'bilinear', 'which': draw(st.sampled_from(['dd_mul', 'dd_matmul', 'rr_mul', 'rr_matmul', 'ldr_r_mul',
                                                                     'ldr_r_matmul', 'dro_adapt_r_mul', 'dro_adapt_r_matmul',
-                                                                    'dd_sub_mul', 'rr_sub_mul'])),
+                                                                    'dd_sub_mul', 'rr_sub_mul', 'dro_adaptslice_r_mul', 'dro_adaptslice_r_matmul'])),
                 'n': draw(st.integers(1, 3)), 'use': draw(st.sampled_from(['constr', 'constr', 'obj'])),
                 'front': draw(st.sampled_from(['ro', 'dro']))}
     n = draw(st.integers(1, 3))
@@ -188,7 +188,9 @@ def bilinear(case):
         m = dro.Model(2)
         x, y = m.dvar(n), m.dvar(n)
         z, z2 = m.rvar(n), m.rvar(n)
-        if w.startswith('dro_adapt'):
+        if w.startswith('dro_adaptslice'):
+            x[0].adapt(z)
+        elif w.startswith('dro_adapt'):
             x.adapt(z)
     else:
         m = ro.Model()
